@@ -614,6 +614,49 @@ func ruleLDR5(c *Ctx) {
 		}
 	}
 	c.Check(bad == "", construct, p.Pos(fn.Pos()), "every error return after the walk passes a pruning call", "the error return at "+bad+" is reachable without pruning the nodes of the rejected text from the working memory")
+	// ... and none of its rules in the knowledge base (D40): the rule the parser gave up on is registered half built
+	// (`then F.Z = ;` recovers without an error node) and fails every later run, which damages the rules loaded before.
+	// Every error return after the walk passes DiscardRuleEntries(the entries of this text), and that before the
+	// pruning, which keeps what the remaining rule entries reach.
+	discard := p.Method("ast", "KnowledgeBase", "DiscardRuleEntries")
+	grlEntries := p.Field("ast", "Grl", "RuleEntries")
+	construct2 := "BuildRuleFromResource / rejected text leaves none of its rules in the knowledge base"
+	if discard == nil {
+		c.Fail(construct2, p.Pos(fn.Pos()), "the rules of a rejected text stay registered: `rule B { when F.X > 1 then F.Z = ; }` is refused with a syntax error and B is in the knowledge base with an empty right-hand side; the next Execute ends in `error while executing rule B` and the rules loaded before no longer run; the complete rules of the text stay as well, so the corrected text is refused as a duplicate")
+		return
+	}
+	bad2 := ""
+	for _, ret := range returnsOf(fn) {
+		if isNilConst(ret.Results[0]) {
+			continue
+		}
+		walks := findCalls(fn, func(ci ssa.CallInstruction) bool {
+			f, _ := calleeOf(ci)
+			return f != nil && f.Name() == "Walk"
+		})
+		if len(walks) == 0 || !walks[0].Block().Dominates(ret.Block()) {
+			continue
+		}
+		isDiscard := func(in ssa.Instruction) bool {
+			ci, ok := in.(ssa.CallInstruction)
+			if !ok || ci.Common().StaticCallee() != discard || len(ci.Common().Args) < 2 {
+				return false
+			}
+			f, _ := fieldLoad(ci.Common().Args[1])
+			return f == grlEntries
+		}
+		if t, _ := reach(fn, walks[0].(ssa.Instruction), func(in ssa.Instruction) bool { return in == ssa.Instruction(ret) }, isDiscard, nil); t != nil {
+			bad2 = "the error return at " + p.InstrPos(ret) + " is reachable without discarding the rule entries of the rejected text"
+		}
+		// order: no pruning call is reached before the discard
+		if t, _ := reach(fn, walks[0].(ssa.Instruction), func(in ssa.Instruction) bool {
+			ci, ok := in.(ssa.CallInstruction)
+			return ok && isPrune(ci)
+		}, isDiscard, nil); t != nil && bad2 == "" {
+			bad2 = "the working memory is pruned at " + p.InstrPos(t) + " before the entries are discarded: the nodes of the discarded rules are still reachable then and stay behind"
+		}
+	}
+	c.Check(bad2 == "", construct2, p.Pos(fn.Pos()), "DiscardRuleEntries(entries of this text) before the pruning on every error return after the walk", bad2)
 }
 
 var _ = sort.Strings
